@@ -157,6 +157,19 @@ func (it *Interp) pushPC(c *Term) {
 	it.pc = append(it.pc, c)
 }
 
+// inPC: is c syntactically one of the path-condition conjuncts (cheap implication test)?
+func (it *Interp) inPC(c *Term) bool {
+	for _, p := range it.pc {
+		if p == c {
+			return true
+		}
+		if p.Op == OAnd && (p.Args[0] == c || p.Args[1] == c) {
+			return true
+		}
+	}
+	return false
+}
+
 // ---------------------------------------------------------------------------
 // forking
 
@@ -186,10 +199,18 @@ func (it *Interp) branch(c *Term) bool {
 	}
 	it.Stats.Branches++
 	nc := it.St.Not(c)
-	tf := it.feasible(c)
-	ff := true
-	if tf {
-		ff = it.feasible(nc)
+	var tf, ff bool
+	switch {
+	case it.inPC(c):
+		tf, ff = true, false
+	case it.inPC(nc):
+		tf, ff = false, true
+	default:
+		tf = it.feasible(c)
+		ff = true
+		if tf {
+			ff = it.feasible(nc)
+		}
 	}
 	d := decision{}
 	switch {
